@@ -1229,9 +1229,12 @@ func c13r4(c *Ctx) {
 	}
 	stored := callArgs(setAnn.Common)[0]
 	// stored is phi(annotations, nil) where annotations = object.GetAnnotations(); find the underlying map value
+	// (the stripping may live in an extracted helper that returns the map or nil: values are resolved
+	// through helper results and helper parameters to the map object itself)
 	var base ssa.Value
-	for _, pv := range p.possibleValues(stored) {
-		if isNilConst(stripConv(pv)) {
+	for _, pv := range p.rvValuesX(stored) {
+		pv = stripConv(pv)
+		if isNilConst(pv) {
 			continue
 		}
 		if base != nil && base != pv {
@@ -1239,6 +1242,13 @@ func c13r4(c *Ctx) {
 			break
 		}
 		base = pv
+	}
+	isBase := func(v ssa.Value) bool {
+		if stripConv(v) == base {
+			return true
+		}
+		xs := p.rvValuesX(v)
+		return len(xs) == 1 && stripConv(xs[0]) == base
 	}
 	keys := make([]string, 0, len(read))
 	for k := range read {
@@ -1251,7 +1261,7 @@ func c13r4(c *Ctx) {
 			o.Unknown("cannot resolve the map passed to SetAnnotations (%s)", p.describe(stored))
 			continue
 		}
-		deleted := p.mustPrecede(setAnn.Instr, func(in ssa.Instruction) bool {
+		deleted := p.mustPrecedeX(setAnn.Instr, func(in ssa.Instruction) bool {
 			ci, ok := in.(ssa.CallInstruction)
 			if !ok {
 				return false
@@ -1261,7 +1271,7 @@ func c13r4(c *Ctx) {
 				return false
 			}
 			s, isC := constString(ci.Common().Args[1])
-			return isC && s == k && ci.Common().Args[0] == base
+			return isC && s == k && isBase(ci.Common().Args[0])
 		})
 		if deleted {
 			o.OK("delete(annotations, " + byValue[k] + ") precedes SetAnnotations on every path; read at " + p.IPos(read[k]))
@@ -1274,8 +1284,9 @@ func c13r4(c *Ctx) {
 		o := c.Ob(addObjs, "stripped-object-is-collected", setAnn.Instr, "the object whose annotations were stripped is the object handed to addObjects")
 		recv := callRecv(setAnn.Common)
 		okObj := false
+		addOne := c.MustFunc(pkgPkgRender, "(phaseCollector).addObjects")
 		for _, call := range callsIn(addObjs) {
-			if calleeName(call.Common) != "addObjects" {
+			if addOne == nil || staticCallee(call.Common) != addOne {
 				continue
 			}
 			elems, ok := sliceElems(callArgs(call.Common)[1])
@@ -1465,12 +1476,19 @@ func c13r5(c *Ctx) {
 						problems = append(problems, "paths are not visited by a unit-step index from the first element")
 					}
 					// the slice indexed must have been sorted before the loop
-					sortedBefore := p.mustPrecede(app, func(in ssa.Instruction) bool {
+					// (the list may be produced — collected and sorted — by an extracted helper)
+					listVals := p.rvValuesX(ia.X)
+					sortedBefore := p.mustPrecedeX(app, func(in ssa.Instruction) bool {
 						ci, ok := in.(ssa.CallInstruction)
 						if !ok || !sortFuncs[calleeID(ci.Common())] || len(ci.Common().Args) == 0 {
 							return false
 						}
-						return p.sameValue(stripConv(ci.Common().Args[0]), ia.X) || c13SameSliceVar(stripConv(ci.Common().Args[0]), ia.X)
+						arg := stripConv(ci.Common().Args[0])
+						if p.sameValue(arg, ia.X) || c13SameSliceVar(arg, ia.X) {
+							return true
+						}
+						argVals := p.rvValuesX(arg)
+						return len(listVals) == 1 && len(argVals) == 1 && stripConv(listVals[0]) == stripConv(argVals[0])
 					})
 					if !sortedBefore {
 						problems = append(problems, "the path list is not sorted before the concatenation loop")
@@ -1530,7 +1548,7 @@ func c13r5(c *Ctx) {
 		o := c.Ob(rost, "objects-to-collector", nil, "RenderObjectSetTemplateSpec passes pkgInstance.Objects unchanged to the collector and the collected phases unchanged to the template")
 		okArg := false
 		for _, call := range callsIn(rost) {
-			if calleeName(call.Common) == "AddObjects" {
+			if addObjs := c.MustFunc(pkgPkgRender, "(phaseCollector).AddObjects"); addObjs != nil && staticCallee(call.Common) == addObjs {
 				a := callArgs(call.Common)
 				if len(a) == 1 && c13IsFieldLoad(a[0], "Objects") {
 					okArg = true
